@@ -53,10 +53,9 @@ def wordValue (w : PWord) : List Char := (w.marks false).map Prod.fst
 def attrMarks (cs : List AttrChar) : List (Char × Bool) :=
   (cs.filter fun c => !c.isQuoting).map fun c => (c.value, c.isQuoted)
 
-/-- no unquoted (expansion-made) backslash stands directly before a quoting character.  Where it does — `$p""x`
-    with `p` = `\` — the implementation lets the backslash quote the quotation mark (which quote removal then
-    drops) instead of the next character of the value; POSIX says nothing about that case and the Spec does not
-    judge it. -/
+/-- no unquoted (expansion-made) backslash stands directly before a quoting character.  Before fix 9da0f0e the
+    implementation let such a backslash quote the quotation mark (`$p""*` with `p` = `\` was read as `*`); since the
+    fix the theorems need no such hypothesis.  Kept (name unchanged) as the description of the class the fix changed. -/
 def noEscapedMark : List AttrChar → Bool
   | a :: b :: t =>
     !(a.value == '\\' && !a.isQuoting && !a.isQuoted && b.isQuoting) && noEscapedMark (b :: t)
